@@ -181,8 +181,10 @@ func realSweep(family string, n int, seed uint64, args []string) int {
 	sw := &sweep{}
 	switch family {
 	case "chain":
+		chainFixed(sw)
 		realChain(r, n, sw)
 	case "tamper":
+		tamperFixed(sw)
 		realTamper(r, n, sw, true)
 	case "foreign":
 		realTamper(r, n, sw, false)
@@ -193,6 +195,7 @@ func realSweep(family string, n int, seed uint64, args []string) int {
 	case "conc":
 		realConc(r, n, sw)
 	case "entropy":
+		entropyFixed(sw)
 		realEntropy(r, n, sw)
 	default:
 		fmt.Fprintln(os.Stderr, "unknown real family", family)
@@ -457,6 +460,22 @@ func realChain(r *rng, n int, sw *sweep) {
 
 // a conforming COSE_Sign1 built and signed by the harness alone (own encoder, stdlib crypto)
 func foreignSign1(r *rng, k realKey, cfg *genCfg) (*W, []byte, []byte, string) {
+	return foreignSign1Env(r, k, cfg, false)
+}
+
+func notGoverned(es []hentry) []hentry {
+	out := es[:0:0]
+	for _, e := range es {
+		if !(e.label.kind == "int" && (e.label.i == 3 || e.label.i >= 258 && e.label.i <= 260)) {
+			out = append(out, e)
+		}
+	}
+	return out
+}
+
+// env: a conforming Hash_Envelope (label 258 in the protected bucket, no content type, SHA-256
+// sized payload, no external data)
+func foreignSign1Env(r *rng, k realKey, cfg *genCfg, env bool) (*W, []byte, []byte, string) {
 	h := randHeaders(r, cfg)
 	stripAlg(&h, int64(k.alg))
 	h.prot = append(h.prot, hentry{hInt(1), hInt(int64(k.alg))})
@@ -464,6 +483,15 @@ func foreignSign1(r *rng, k realKey, cfg *genCfg) (*W, []byte, []byte, string) {
 	m.payload = randPayload(r, false)
 	if m.payload == nil {
 		m.payload = []byte{}
+	}
+	if env {
+		m.h.prot, m.h.unprot = notGoverned(m.h.prot), notGoverned(m.h.unprot)
+		m.h.prot = append(m.h.prot, hentry{hInt(258), hInt(-16)})
+		if r.chance(1, 2) {
+			m.h.prot = append(m.h.prot, hentry{hInt(259), hText("text/plain")})
+		}
+		m.ext = "-"
+		m.payload = r.bytes(32)
 	}
 	root := m.wire(r, 40)
 	ext := unhex(m.ext)
@@ -484,7 +512,8 @@ func realTamper(r *rng, n int, sw *sweep, mutate bool) {
 			sw.fail("tamper", err.Error(), "NewVerifier failed for a valid key")
 			continue
 		}
-		root, payload, ext, exts := foreignSign1(r, k, cfg)
+		env := r.chance(1, 5)
+		root, payload, ext, exts := foreignSign1Env(r, k, cfg, env)
 		top := wTag(18, root)
 		wire := top.enc()
 		vext := ext
@@ -586,6 +615,23 @@ func realTamper(r *rng, n int, sw *sweep, mutate bool) {
 		}
 		if edits == "unprot" && got != nil {
 			sw.fail("tamper", desc, "a change confined to the unprotected headers changed the verdict")
+		}
+		if env {
+			// VerifyHashEnvelope recomputes the same Sig_structure from the received bytes: it returns a
+			// message only if the signature is valid, and it accepts the untouched conforming envelope
+			_, herr := cose.VerifyHashEnvelope(verifier, wire)
+			wantNoExt := ok && m.Payload != nil && stdVerify(k, refTBS1(content, []byte{}, m.Payload), m.Signature)
+			if a, err := m.Headers.Protected.Algorithm(); err != nil || a != k.alg {
+				wantNoExt = false
+			}
+			if herr == nil && !wantNoExt {
+				sw.fail("tamper", desc, "VerifyHashEnvelope accepted an envelope whose signature is not valid over the received bytes (stdlib oracle)")
+				continue
+			}
+			if herr != nil && edits == "none" {
+				sw.fail("foreign", desc, "VerifyHashEnvelope refused a conforming envelope from an independent encoder: "+herr.Error())
+				continue
+			}
 		}
 		if got == nil || edits != "none" {
 			sw.nontrivial++
@@ -694,6 +740,12 @@ func realDigest(r *rng, n int, sw *sweep) {
 	for i := 0; i < n; i++ {
 		alg := []cose.Algorithm{cose.AlgorithmES256, cose.AlgorithmES384, cose.AlgorithmES512, cose.AlgorithmPS256, cose.AlgorithmPS384, cose.AlgorithmPS512}[r.intn(6)]
 		k := realKeyFor(alg, r)
+		if k.name == "ecdsa" && r.chance(1, 2) {
+			// any supported curve under any ES algorithm (the hash is the algorithm's, whatever the curve)
+			c := []elliptic.Curve{elliptic.P256(), elliptic.P384(), elliptic.P521()}[r.intn(3)]
+			ek := detKey(c, fmt.Sprintf("mix%d", r.intn(4)))
+			k = realKey{alg, "ecdsa", ek, &ek.PublicKey}
+		}
 		var sk crypto.Signer = k.priv
 		if r.chance(1, 2) {
 			sk = wrapped{k.priv} // an opaque crypto.Signer (HSM-style): ASN.1 → fixed width for ECDSA, PSS options for RSA
@@ -716,6 +768,10 @@ func realDigest(r *rng, n int, sw *sweep) {
 		sig1, e1 := s.Sign(rand.Reader, content)
 		sig2, e2 := ds.SignDigest(rand.Reader, dg)
 		desc := fmt.Sprintf("alg=%d content=%x", alg, content)
+		if ek, ok := k.pub.(*ecdsa.PublicKey); ok {
+			_, isW := sk.(wrapped)
+			desc += fmt.Sprintf(" curve=%s opaque-key=%v", ek.Curve.Params().Name, isW)
+		}
 		if e1 != nil || e2 != nil {
 			sw.fail("digest", desc, "signing failed")
 			continue
